@@ -188,6 +188,22 @@ def r10_2(ctx):
                     if x[0] == "call" and x[1] == "regex::LazyRegex::new_leaf":
                         okc = x[2][0][0] == "local" and x[2][0][1] == byrole["capture"] and x[2][1] == ("param", 3)
         r.ob("template:capture-regex-anchored", okc, f.site, "regex_capture = LazyRegex::new_leaf(capture, ignore_case)")
+        # marker names are case-sensitive (`@productId`): the template reaches MarkerString::new as written, the
+        # case flag travels next to it (only the static form is case-folded)
+        nw = F.fn(SOD + "::new_with_markers")
+        r.analysed(nw)
+        n_ms = 0
+        bad_ms = set()
+        for p in Sym(nw, copies=True).paths():
+            for e in p.events:
+                if e[0] == "call" and e[1] == MS + "::new":
+                    n_ms += 1
+                    if e[2][0] != ("param", 1):
+                        bad_ms.add(show(e[2][0], nw)[:80])
+                    if e[2][2] != ("param", 3):
+                        bad_ms.add("case flag %s" % show(e[2][2], nw)[:40])
+        r.ob("template:marker-string-gets-the-template-as-written", n_ms >= 1 and not bad_ms, nw.site,
+             "MarkerString::new(template as given, markers, ignore_case)" if not bad_ms else "MarkerString::new receives %s: a case-folded template no longer contains `@Name` for a marker whose name has an upper-case letter" % sorted(bad_ms))
     ctx.run_rule("R10.2", "matching and capturing templates agree", body, floor=7)
 
 
